@@ -997,6 +997,9 @@ class _Tr(ast.NodeVisitor):
             n = a[0] if a else kw["shape"]
             if isinstance(kw.get("dtype"), ast.Name) and kw["dtype"].id == "int" and self.fn.opts:     # PyLite 3
                 return f"(Rpylib.Py.izeros {self.expr_as(n, INT)})", "List Int"
+            if "dtype" in kw and _dotted(kw["dtype"]) not in ("float", "np.float64", "numpy.float64"):
+                # (C09) an integer dtype outside PyLite 3: numpy's fixed-width integers are not modelled
+                self.bad(e, "np.zeros with a non-float dtype (fixed-width integers are not modelled)")
             return f"(Rpylib.Py.zeros {self.expr_as(n, INT)})", "List Rat"
         if fdot in ("np.insert", "numpy.insert") and len(a) == 3 and not kw:
             s_, t_ = self.expr(a[0])
